@@ -2,7 +2,7 @@
 //!   c01 replay <cases.ndjson> <results.ndjson>
 //!   c01 print <cases.ndjson> <n>        print the source of case n (debugging / replays)
 //! Case: {id, tops, out:[{k:"print", v:snapshot}], status}.
-//! Result: {i, verdict: "ok"|"mismatch"|"rejected"|"panic"|"dropped"|"load_error"|"tool", expected, got, source?, ...}
+//! Result: {i, verdict: "ok"|"mismatch"|"rejected"|"panic"|"dropped"|"load_error"|"unsupported", expected, got, source?, ...}
 
 use serde_json::{json, Value};
 use std::path::Path;
@@ -10,9 +10,40 @@ use vharness::printer::{print_program, PrintOpts};
 use vharness::util::*;
 use vharness::{CompileResult, Project};
 
+/// Text of a print snapshot. The kinds of the numeric-limits dimension are handled here: `i64` / `fx` carry the text the
+/// specification computed (64-bit ints in decimal; inf, -inf, nan, -0.0); `fbig` is the float n * 2^e, shown like every other
+/// float ("%.14g"). Everything else is util::render_value.
+fn snapshot_text(v: &Value) -> String {
+    match v["k"].as_str().unwrap_or("?") {
+        "i64" | "fx" => v["text"].as_str().unwrap().to_string(),
+        "fbig" => lua_float_text(v["n"].as_i64().unwrap() as f64 * 2f64.powi(v["e"].as_i64().unwrap() as i32)),
+        "tuple" => {
+            let es: Vec<String> = v["es"].as_array().unwrap().iter().map(snapshot_text).collect();
+            if es.len() == 1 {
+                format!("({},)", es[0])
+            } else {
+                format!("({})", es.join(", "))
+            }
+        }
+        "list" => format!("[{}]", v["es"].as_array().unwrap().iter().map(snapshot_text).collect::<Vec<_>>().join(", ")),
+        "variant" => format!("{} {}", v["tag"].as_str().unwrap(), snapshot_text(&v["val"])),
+        _ => render_value(v),
+    }
+}
+
 fn expected(case: &Value) -> (Vec<String>, String) {
-    let prints: Vec<String> = case["out"].as_array().unwrap().iter().map(|e| render_value(&e["v"])).collect();
+    let prints: Vec<String> = case["out"].as_array().unwrap().iter().map(|e| snapshot_text(&e["v"])).collect();
     (prints, case["status"].as_str().unwrap().to_string())
+}
+
+/// The sign of a NaN is not something a Sylt program denotes (x86 produces "-nan" for inf - inf, other machines "nan"):
+/// an observed "-nan" is read as "nan", also inside the text of a tuple or list.
+fn normalise_nan(line: &str) -> String {
+    if line.contains("-nan") {
+        line.replace("-nan", "nan")
+    } else {
+        line.to_string()
+    }
 }
 
 #[cfg(feature = "lua")]
@@ -28,16 +59,18 @@ fn run_case(src: &str, lua: &str, case: &Value) -> Value {
         Status::Unreachable { .. } => "unreachable".to_string(),
         other => other.short(),
     };
-    let ok = got_status == want_status && r.obs.prints == want_prints;
+    let got_prints: Vec<String> = r.obs.prints.iter().map(|l| normalise_nan(l)).collect();
+    let ok = got_status == want_status && got_prints == want_prints;
     let verdict = match &r.obs.status {
         Status::LoadError { .. } => "load_error",
-        Status::Unsupported { .. } => "tool",
+        // the emitted chunk uses something minilua does not provide: what the compiler emitted is data (the checks decide)
+        Status::Unsupported { .. } => "unsupported",
         Status::StepLimit => "dropped",
         _ if ok => "ok",
         _ => "mismatch",
     };
     let mut out = json!({"verdict": verdict, "want": {"prints": want_prints, "status": want_status},
-           "got": {"prints": r.obs.prints, "status": got_status, "detail": format!("{:?}", r.obs.status)}});
+           "got": {"prints": got_prints, "status": got_status, "detail": format!("{:?}", r.obs.status)}});
     if verdict != "ok" {
         out["source"] = json!(src);
     }
